@@ -12,3 +12,62 @@ package mysql
 //@   at call EnvelopeDetector.AddCallback#0 : assert typeis(arg[0], crypto.PoisonRecordDetector) && !called(EnvelopeDetector.AddCallback#1)
 //@   at call EnvelopeDetector.AddCallback#1 : assert typeis(arg[0], crypto.DecryptHandler) && (called(EnvelopeDetector.AddCallback#0) || !(ret(ProxySetting.PoisonRecordCallbackStorage#0)[0] != nil && ret(PoisonRecordCallbackStorage.HasCallbacks)[0]))
 //@   at call crypto.NewPoisonRecordsRecognizer : assert ret(PoisonRecordCallbackStorage.HasCallbacks)[0]
+
+// ---- Typed columns (C19) ----
+//@ func mapEncryptedTypeToField(dataTypeID uint32) (id uint32, ok bool)
+//@   props C19
+//@   safety
+//@   ensures registered-type-only: ok <==> haskey(ret(type_awareness.GetMySQLDataTypeIDEncoders)[0], dataTypeID)
+//@   ensures same-id: ok ==> id == dataTypeID
+//@   ensures none: !ok ==> id == 0
+
+// The column description is rewritten to the declared type only, and the original type is kept for the rollback that
+// the data encoders perform when the value cannot be converted.
+//@ func updateFieldEncodedType(field *ColumnDescription, schemaStore config.TableSchemaStore)
+//@   props C19
+//@   safety
+//@   ensures declared-type-described: field.changed && !old(field.changed) ==> called(mapEncryptedTypeToField) && ret(mapEncryptedTypeToField)[1] && field.Type == base_mysql.Type(ret(mapEncryptedTypeToField)[0]) && field.originType == old(field.Type)
+//@   ensures untouched-otherwise: !(called(mapEncryptedTypeToField) && ret(mapEncryptedTypeToField)[1]) ==> field.Type == old(field.Type) && field.changed == old(field.changed) && field.Charset == old(field.Charset) && field.ColumnLength == old(field.ColumnLength)
+//@   at call mapEncryptedTypeToField : assert arg[0] == ret(ColumnEncryptionSetting.GetDBDataTypeID)[0]
+
+//@ func (p *BaseMySQLDataProcessor) encodeText(ctx context.Context, data []byte, setting config.ColumnEncryptionSetting, columnInfo base.ColumnInfo, logger *logrus.Entry) (outCtx context.Context, out []byte, err error)
+//@   props C19
+//@   safety
+//@   ensures encoder-error-fails-statement: called(DataTypeEncoder.Encode) && ret(DataTypeEncoder.Encode)[2] != nil && ret(DataTypeEncoder.Encode)[2] != base_mysql.ErrConvertToDataType ==> err == ret(DataTypeEncoder.Encode)[2] && out == nil
+//@   ensures encoder-value-used: called(DataTypeEncoder.Encode) && (ret(DataTypeEncoder.Encode)[2] == nil || ret(DataTypeEncoder.Encode)[2] == base_mysql.ErrConvertToDataType) && ret(DataTypeEncoder.Encode)[1] != nil ==> err == nil && sameslice(out, ret(DataTypeEncoder.Encode)[1])
+//@   ensures otherwise-as-stored: !called(DataTypeEncoder.Encode) || ((ret(DataTypeEncoder.Encode)[2] == nil || ret(DataTypeEncoder.Encode)[2] == base_mysql.ErrConvertToDataType) && ret(DataTypeEncoder.Encode)[1] == nil) ==> err == nil && sameslice(out, ret(base.PutLengthEncodedString)[0]) && sameslice(argof(base.PutLengthEncodedString)[0], data)
+//@   ensures rollback-marked: called(DataTypeEncoder.Encode) && ret(DataTypeEncoder.Encode)[2] == base_mysql.ErrConvertToDataType && ret(DataTypeEncoder.Encode)[1] == nil ==> called(base.MarkErrorConvertedDataTypeContext)
+//@   ensures encoder-consulted: len(data) != 0 && haskey(ret(type_awareness.GetMySQLDataTypeIDEncoders)[0], ret(ColumnEncryptionSetting.GetDBDataTypeID)[0]) ==> called(DataTypeEncoder.Encode)
+//@   at call DataTypeEncoder.Encode : assert sameslice(arg[1], data) && recv == ret(type_awareness.GetMySQLDataTypeIDEncoders)[0][ret(ColumnEncryptionSetting.GetDBDataTypeID)[0]]
+//@   at call NewDataTypeFormat : assert arg[0] == columnInfo && arg[1] == setting
+
+//@ func (p *BaseMySQLDataProcessor) encodeBinary(ctx context.Context, data []byte, setting config.ColumnEncryptionSetting, columnInfo base.ColumnInfo, logger *logrus.Entry) (outCtx context.Context, out []byte, err error)
+//@   props C19
+//@   safety
+//@   ensures encoder-error-fails-statement: called(DataTypeEncoder.Encode) && ret(DataTypeEncoder.Encode)[2] != nil && ret(DataTypeEncoder.Encode)[2] != base_mysql.ErrConvertToDataType ==> err == ret(DataTypeEncoder.Encode)[2] && out == nil
+//@   ensures encoder-value-used: called(DataTypeEncoder.Encode) && (ret(DataTypeEncoder.Encode)[2] == nil || ret(DataTypeEncoder.Encode)[2] == base_mysql.ErrConvertToDataType) && ret(DataTypeEncoder.Encode)[1] != nil ==> err == nil && sameslice(out, ret(DataTypeEncoder.Encode)[1])
+//@   ensures rollback-uses-original-type: called(DataTypeEncoder.Encode) && ret(DataTypeEncoder.Encode)[2] == base_mysql.ErrConvertToDataType && ret(DataTypeEncoder.Encode)[1] == nil ==> called(base.MarkErrorConvertedDataTypeContext) && called(ColumnInfo.OriginBinaryType)
+//@   ensures no-rollback-without-conversion-error: called(base.MarkErrorConvertedDataTypeContext) || called(ColumnInfo.OriginBinaryType) ==> called(DataTypeEncoder.Encode) && ret(DataTypeEncoder.Encode)[2] == base_mysql.ErrConvertToDataType
+//@   ensures encoder-consulted: len(data) != 0 && haskey(ret(type_awareness.GetMySQLDataTypeIDEncoders)[0], ret(ColumnEncryptionSetting.GetDBDataTypeID)[0]) ==> called(DataTypeEncoder.Encode)
+//@   ensures whole-or-nothing: err != nil ==> out == nil || called(binary.Write)
+//@   at call DataTypeEncoder.Encode : assert sameslice(arg[1], data) && recv == ret(type_awareness.GetMySQLDataTypeIDEncoders)[0][ret(ColumnEncryptionSetting.GetDBDataTypeID)[0]]
+//@   at call NewDataTypeFormat : assert arg[0] == columnInfo && arg[1] == setting
+
+//@ func (p *DataEncoderProcessor) OnColumn(ctx context.Context, data []byte) (outCtx context.Context, out []byte, err error)
+//@   props C19
+//@   safety
+//@   noinline *
+//@   ensures no-column-info-untouched: !ret(base.ColumnInfoFromContext)[1] ==> sameslice(out, data) && err == nil
+//@   ensures format-selects-encoder: ret(base.ColumnInfoFromContext)[1] ==> (ret(ColumnInfo.IsBinaryFormat)[0] ==> called(BaseMySQLDataProcessor.encodeBinary) && sameslice(out, ret(BaseMySQLDataProcessor.encodeBinary)[1]) && err == ret(BaseMySQLDataProcessor.encodeBinary)[2]) && (!ret(ColumnInfo.IsBinaryFormat)[0] ==> called(BaseMySQLDataProcessor.encodeText) && sameslice(out, ret(BaseMySQLDataProcessor.encodeText)[1]) && err == ret(BaseMySQLDataProcessor.encodeText)[2])
+//@   at call BaseMySQLDataProcessor.encodeBinary : assert sameslice(arg[1], data) && arg[3] == ret(base.ColumnInfoFromContext)[0]
+//@   at call BaseMySQLDataProcessor.encodeText : assert sameslice(arg[1], data) && arg[3] == ret(base.ColumnInfoFromContext)[0]
+
+//@ func (p *DataDecoderProcessor) OnColumn(ctx context.Context, data []byte) (outCtx context.Context, out []byte, err error)
+//@   props C19
+//@   safety
+//@   noinline *
+//@   ensures no-column-info-untouched: !ret(base.ColumnInfoFromContext)[1] ==> sameslice(out, data) && err == nil
+//@   ensures decoder-error-fails: called(DataTypeEncoder.Decode) && ret(DataTypeEncoder.Decode)[2] != nil ==> err == ret(DataTypeEncoder.Decode)[2] && out == nil
+//@   ensures decoder-value-used: called(DataTypeEncoder.Decode) && ret(DataTypeEncoder.Decode)[2] == nil && ret(DataTypeEncoder.Decode)[1] != nil ==> err == nil && sameslice(out, ret(DataTypeEncoder.Decode)[1])
+//@   ensures text-untouched: ret(base.ColumnInfoFromContext)[1] && !called(DataTypeEncoder.Decode) && !ret(ColumnInfo.IsBinaryFormat)[0] ==> sameslice(out, data) && err == nil
+//@   at call DataTypeEncoder.Decode : assert sameslice(arg[1], data)
